@@ -133,9 +133,9 @@ def sany(module, cwd=None):
 
 # ----------------------------------------------------------------------------------------------
 # batch verdicts: trace specs print one line per rejected item
-#   <<"REJECTED", id, "clause", "...", detail>>
+#   "REJECTED|<id>|<clause / detail>"
 # ----------------------------------------------------------------------------------------------
-_REJ = re.compile(r'^<<"REJECTED", (\d+), (.*)>>\s*$')
+_REJ = re.compile(r'^"?REJECTED\|(\d+)\|(.*?)"?\s*$')
 
 
 def rejected(out):
